@@ -376,8 +376,9 @@ class HistoryProp:
     """Builds work_items / run_item / replay / shrink for a monitor-based model property."""
 
     def __init__(self, prop, method, mon_cls, n_quick, n_thorough, max_len=60, styles=None,
-                 use_model_legality=False, plan_strategy=None, stop_at_last=True, extra_envs=()):
+                 use_model_legality=False, plan_strategy=None, stop_at_last=True, extra_envs=(), deep=True):
         self.prop, self.method, self.mon_cls = prop, method, mon_cls
+        self.deep = deep
         self.n_quick, self.n_thorough, self.max_len, self.styles = n_quick, n_thorough, max_len, styles
         self.use_model_legality = use_model_legality
         self.plan_strategy = plan_strategy
@@ -399,7 +400,7 @@ class HistoryProp:
             return histprop.run_item(
                 self.prop, item, seed, self.make_monitor, max_len=self.max_len, styles=self.styles,
                 legal_fn_factory=legal_fn_factory if self.use_model_legality else None,
-                setup=_model_setup(self.method), stop_at_last=self.stop_at_last)
+                setup=_model_setup(self.method), stop_at_last=self.stop_at_last, deep=self.deep)
         return self._run_custom(item, seed)
 
     def _run_custom(self, item, seed):
